@@ -212,9 +212,9 @@ def receivers(prog: Program) -> List[str]:
 
 
 def r04_abc(prog: Program, chk: Check) -> None:
-    chk.rule("R04.a", "Never is accepted by every static-type receiver: abstract dispatch of can_assign with other = Never reaches no direct rejection", floor=15)
-    chk.rule("R04.b", "Any is accepted by every static-type receiver when exclude-any mode is off, and record_any_used() is called on the accepting path of the base rule", floor=15)
-    chk.rule("R04.c", "Any accepts every type (AnyValue.can_assign reaches no rejection for non-union, non-annotated operands)", floor=15)
+    chk.rule("R04.a", "Never is accepted by every static-type receiver: abstract dispatch of can_assign with other = Never reaches no direct rejection", floor=10)
+    chk.rule("R04.b", "Any is accepted by every static-type receiver when exclude-any mode is off, and record_any_used() is called on the accepting path of the base rule", floor=10)
+    chk.rule("R04.c", "Any accepts every type (AnyValue.can_assign reaches no rejection for non-union, non-annotated operands)", floor=10)
     an = Analyzer(prog)
     recs = receivers(prog)
     chk.analysed["receivers"] = recs
